@@ -109,6 +109,20 @@ pub fn replay_main(args: &[String]) -> i32 {
     };
     let prop = v["property"].as_str().unwrap_or("").to_string();
     let label = v["label"].as_str().unwrap_or("").to_string();
+    // a replay file records the build profile it was found under (some findings exist only with
+    // debug assertions): hand over to the sibling binary of that profile when there is one
+    if let Some(want) = v["profile"].as_str() {
+        if want != profile_name() && std::env::var_os("DVCHECK_NO_PROFILE_SWITCH").is_none() {
+            if let Ok(exe) = std::env::current_exe() {
+                if let Some(sibling) = exe.parent().and_then(|d| d.parent()).map(|t| t.join(want).join("dvcheck")) {
+                    if sibling.exists() {
+                        let st = Command::new(sibling).arg("replay").args(args).env("DVCHECK_NO_PROFILE_SWITCH", "1").status();
+                        return st.ok().and_then(|s| s.code()).unwrap_or(2);
+                    }
+                }
+            }
+        }
+    }
     let known = KnownFindings::load(&verif_root().join("known_findings.json"));
     let mut ctx = Ctx::new(&prop, profile_name(), Tier::Quick, 0, 0, 1, known);
     ctx.strict = strict;
@@ -148,7 +162,7 @@ struct ReplayOutcome {
 
 fn run_replay(bin: &Path, file: &Path, strict: bool) -> ReplayOutcome {
     let mut cmd = Command::new(bin);
-    cmd.arg("replay").arg(file);
+    cmd.arg("replay").arg(file).env("DVCHECK_NO_PROFILE_SWITCH", "1");
     if strict {
         cmd.arg("--strict");
     }
